@@ -1699,6 +1699,21 @@ func (e *specEnv) call(n *ECall) sval {
 			e.fail("local: unknown type %s", n.Args[1])
 		}
 		return e.localTyped(id.Name, want)
+	case "param": // param(i): the i-th parameter of the function under contract, whatever it is called in the source
+		num, ok := n.Args[0].(*ENum)
+		if !ok || len(n.Args) != 1 || e.fr == nil {
+			e.fail("param(index) is only available in contracts of the function itself")
+		}
+		idx, _ := strconv.Atoi(num.Text)
+		root := e.fr.rootFr
+		if root == nil {
+			root = e.fr
+		}
+		if idx < 0 || idx >= len(root.fn.Params) {
+			e.fail("param(%d): the function has %d parameters", idx, len(root.fn.Params))
+		}
+		p := root.fn.Params[idx]
+		return sval{t: root.vals[p], typ: p.Type()}
 	case "called": // called(x): the call whose results are bound to x (bind clause) was executed on this path
 		id, ok := n.Args[0].(*EIdent)
 		if !ok {
